@@ -2,8 +2,12 @@
 //! REAL decoder + `decode_position` + `snapshot::update_snapshot` (jet1090 verification driver,
 //! `snap …`).  The oracle computes the property's clauses directly from what the program shows —
 //! the per-record JSON and the table — and re-runs every aircraft's sub-history alone
-//! (non-interference).  The abstract view of every record (what `update_snapshot` looks at) is
-//! extracted from the record's JSON and handed to the Lean model for comparison.
+//! (non-interference).  Two correspondence cases per history: `snap` — the abstract view of every
+//! record (what `update_snapshot` looks at) is extracted here from the record's JSON (`view_of`) and
+//! handed to the Lean model of the table; `snapf` — the FRAMES themselves are handed over and the
+//! model decodes them, derives the views (Model/SnapshotView.lean `viewOfJson`, the Lean twin of
+//! `view_of`) and runs its table; only the position `decode_position` put into the message travels
+//! with the frame.  Both answers must equal the table the real code serves.
 use crate::common::*;
 use crate::decgen::set_parity;
 use crate::jet::Jet;
